@@ -3774,7 +3774,7 @@ class AllConnGraph(nx.DiGraph):
         src_inds_list = self.nodes[node]['attrs'].src_inds_list
         if not src_inds_list:
             return None
-        elif len(src_inds_list) == 1:
+        elif len(src_inds_list) == 1 and src_inds_list[0]._flat_src:
             return src_inds_list[0].shaped_array()
         else:
             root = self.get_root(node)
